@@ -48,6 +48,27 @@ Definition hst := (heap * addr)%type.
 Definition get_struct (h : heap) (a : addr) : option (list hv) :=
   match hget h a with Some (OCell (HStruct vs)) => Some vs | _ => None end.
 
+(* the default branch of overlayField: base.Set(overlay.Elem()) or base.Set(overlay) *)
+Definition ov_default (bt : ty) (hs : hst) (ot : ty) (ov : hv) : res (hst * hv) :=
+  match ot, ov with
+  | TPtr oe, HPtr (Some oa) =>
+      if ty_eqb oe bt then
+        match hget (fst hs) oa with Some (OCell x) => Done (hs, x) | _ => IllFormed end
+      else RPanic 3
+  | _, _ => if ty_eqb ot bt then Done (hs, ov) else RPanic 3
+  end.
+
+(* base is a struct implementing TextUnmarshaler: shallow copy *)
+Definition ov_textu (bt : ty) (hs : hst) (ot : ty) (ov : hv) : res (hst * hv) :=
+  match ot, ov with
+  | TPtr oe, HPtr (Some oa) =>
+      if ty_eqb oe bt then
+        match hget (fst hs) oa with Some (OCell x) => Done (hs, x) | _ => IllFormed end
+      else RPanic 3
+  | TTextU _ _, _ => if ty_eqb ot bt then Done (hs, ov) else RErr 5
+  | _, _ => RErr 5
+  end.
+
 Fixpoint overlay_field_h (bt : ty) (hs : hst) (bv : hv) (ot : ty) (ov : hv) {struct bt} : res (hst * hv) :=
   if nilable_kind ot && is_hnil ov then Done (hs, bv) else
   match bt with
@@ -99,15 +120,7 @@ Fixpoint overlay_field_h (bt : ty) (hs : hst) (bv : hv) (ot : ty) (ov : hv) {str
       | _ => IllFormed
       end
   | TIface => RErr 99
-  | TTextU _ _ =>
-      match ot, ov with
-      | TPtr oe, HPtr (Some oa) =>
-          if ty_eqb oe bt then
-            match hget (fst hs) oa with Some (OCell x) => Done (hs, x) | _ => IllFormed end
-          else RPanic 3
-      | TTextU _ _, _ => if ty_eqb ot bt then Done (hs, ov) else RErr 5
-      | _, _ => RErr 5
-      end
+  | TTextU _ _ => ov_textu bt hs ot ov
   | TStruct bfs _ =>
       match bv with
       | HStruct bvs =>
@@ -122,14 +135,7 @@ Fixpoint overlay_field_h (bt : ty) (hs : hst) (bv : hv) (ot : ty) (ov : hv) {str
           end
       | _ => IllFormed
       end
-  | _ =>
-      match ot, ov with
-      | TPtr oe, HPtr (Some oa) =>
-          if ty_eqb oe bt then
-            match hget (fst hs) oa with Some (OCell x) => Done (hs, x) | _ => IllFormed end   (* base.Set(overlay.Elem()) *)
-          else RPanic 3
-      | _, _ => if ty_eqb ot bt then Done (hs, ov) else RPanic 3
-      end
+  | _ => ov_default bt hs ot ov
   end
 with overlay_struct_h (bfs : fields) (hs : hst) (bvs : list hv) (ofs : fields) (ovs : list hv) {struct bfs}
   : res (hst * list hv) :=
